@@ -174,6 +174,39 @@ def r3(F, R):
             if wl in sl.locals and any(rv.get("variant") == "Some" for _, rv in sl.aggs):
                 carried = True
         R.check(carried, "step/returns-same-world", P, "Ok((.., Some(world))) returns the World the step ran on", "run_step does not return the World the step ran on")
+    # every outcome of the step's inner block hands the World on: the tuple's World component derives from the threaded World
+    # (or the one just created); a literal `None` is allowed only on paths where no World exists (world_opt is None)
+    rets = [(s, stt) for s, stt in P.assigns(lambda stt: stt["pl"]["l"] == 0 and not stt["pl"]["p"] and stt["rv"]["k"] == "agg" and stt["rv"].get("adt") == "std::result::Result")]
+    n_ret = 0
+    for s, stt in rets:
+        tl = op_local(stt["rv"]["ops"][0])
+        tsd = P.single_def(tl) if tl is not None else None
+        if not (tsd and tsd[1] == "assign" and tsd[2]["rv"]["k"] == "agg" and tsd[2]["rv"].get("agg") == "tuple"):
+            continue
+        wop = tsd[2]["rv"]["ops"][-1]
+        wl2 = op_local(wop)
+        if wl2 is None or not P.locals[wl2].startswith("std::option::Option<W>"):
+            continue
+        n_ret += 1
+        wsd = P.single_def(wl2)
+        is_none_lit = bool(wsd and wsd[1] == "assign" and wsd[2]["rv"]["k"] == "agg" and wsd[2]["rv"].get("variant") == "None")
+        kind = stt["rv"]["variant"]
+        if is_none_lit:
+            no_world = False
+            for g in A.guards_of(P, s):
+                d = g.cond_def()
+                if d and d[0] == "discr" and g.variants() == {"None"}:
+                    fl = [e for e in A.canon_place(P, d[1])["p"] if isinstance(e, dict) and "f" in e]
+                    pty = fl[-1]["t"] if fl else P.locals[A.canon_place(P, d[1])["l"]]
+                    if pty == "std::option::Option<W>":
+                        no_world = True
+            R.check(no_world, f"step/outcome-keeps-world/{kind}@{_ret_idx(rets, s)}", s, "World component is None only where no World exists",
+                    f"an outcome ({kind}) of the step drops the attempt's World (returns None although a World may exist): the after hook and later events lose it")
+        else:
+            wsl = A.slice_back(P, [wop], stop_calls=[r"Future::poll$"])
+            from_world = (wl in wsl.locals) or bool(wsl.upvars)
+            R.check(from_world, f"step/outcome-keeps-world/{kind}@{_ret_idx(rets, s)}", s, "World component is the attempt's World", "an outcome of the step carries a World that is not the attempt's")
+    R.check(n_ret >= 5, "step/outcomes-found", P, f"{n_ret} outcome tuples", f"only {n_ret} outcome tuples found in the step block")
     # take_world: all arms take the stored world
     tw = [b for b in F.crate_bodies() if (b.impl or {}).get("self_adt") == "runner::basic::ExecutionFailure" and b.locals[0] == "std::option::Option<W>"]
     R.check(len(tw) == 1, "take-world/found", None, "", f"{len(tw)} candidates")
@@ -204,6 +237,10 @@ def r3(F, R):
             R.check(s_tw in sl.sites and sl.has_call(r"Option::<.*>::take$"), "after/gets-attempt-world", after[0][0], "after hook gets Ok world or the failure's world",
                     "the World handed to the after hook is not the attempt's World (Ok world / take_world())")
     R.floor(6)
+
+
+def _ret_idx(rets, s):
+    return [i for i, (x, _) in enumerate(rets) if x == s][0]
 
 
 def r4(F, R):
@@ -247,7 +284,10 @@ def r5(F, R):
         ok_r = any("event::ScenarioFinished" in x for x in ev_ty)
     R.check(ok_w, "after/gets-world-as-mut", s, "hook(.., world.as_mut())", "the after hook does not receive `world.as_mut()`")
     R.check(ok_r, "after/gets-finish-reason", s, "hook(.., &ev, ..)", "the after hook does not receive the finish reason")
-    R.floor(2)
+    # the after hook of a started attempt always gets its turn: the scheduler never abandons in-flight attempts
+    from .c08 import check_exit_requires_empty_in_flight
+    check_exit_requires_empty_in_flight(F, R, "after/attempts-never-abandoned")
+    R.floor(3)
 
 
 RULES = [("R1", r1, None), ("R2", r2, None), ("R3", r3, None), ("R4", r4, None), ("R5", r5, None)]
